@@ -60,19 +60,36 @@ func (c *SilentCase) Judge(rs []Res, env *Env) Outcome {
 	for _, l := range base.Log {
 		baseDiag[parseLog(l).Msg] = true
 	}
-	// a refusal is an error-level line or an info-level line that reports an error in words; warnings are not
+	// a refusal is an error-level line or an info-level line that reports an error in words; warnings are not.  The premise of
+	// the property, though, is "exit status 0 and no ERROR-LEVEL diagnostic": a refusal that is only worded ("Error: ..." filed
+	// at info level, which is what colog does with gosk's capitalised prefix) leaves the premise true, so the statement still
+	// has to be in the output.  Such cases are judged like accepted ones and carry the kind prefix "quiet-refusal:".
+	worded := ""
 	for _, l := range env.RejectDiags(&r) {
 		if !baseDiag[parseLog(l).Msg] {
-			o.Status, o.Note = Rejected, "diagnosed"
-			return o
+			worded = l
+			break
+		}
+	}
+	if worded != "" {
+		for _, l := range env.ErrorDiags(&r) {
+			if !baseDiag[parseLog(l).Msg] {
+				o.Status, o.Note = Rejected, "diagnosed"
+				return o
+			}
 		}
 	}
 	// silently accepted
 	out := r.Out
 	fail := func(kind, detail string) Outcome {
 		o.Status = Violated
+		how := "is accepted without any diagnostic"
+		if worded != "" {
+			kind = "quiet-refusal:" + kind
+			how = "ends with exit status 0 and no error-level line (only `" + clipStr(worded, 160) + "`)"
+		}
 		o.Viols = []Violation{{Sig: fmt.Sprintf("C07|%s|m%d|%s %s", kind, c.Mode, c.Mn, c.Shape),
-			Detail: fmt.Sprintf("[BITS %d] `%s` is accepted without any diagnostic; output %s: %s", c.Mode, c.Stmt, hex.EncodeToString(out), detail)}}
+			Detail: fmt.Sprintf("[BITS %d] `%s` %s; output %s: %s", c.Mode, c.Stmt, how, hex.EncodeToString(out), detail)}}
 		return o
 	}
 	if len(out) < 8 || !bytes.Equal(out[:3], []byte{0x11, 0x22, 0x33}) || !bytes.Equal(out[len(out)-5:len(out)-2], []byte{0xee, 0xdd, 0xcc}) {
